@@ -15,6 +15,7 @@ from hypothesis import strategies as st
 
 from vlib.runner import part, Fail, Skip
 from vlib import refsim as R, refops as O
+from vlib.strategies import circuit_to_recs
 
 PROPERTY = "C06"
 RULE = ("(a) exhaustive sweep of all 63 non-identity Pauli words on 3 letters x 15 coefficients {0,+-1e-12,+-0.37,+-pi/2,+-pi,"
@@ -148,6 +149,14 @@ def taylor_bound(lam, order):
     return 2 * lam ** (order + 1) / factorial(order + 1) * np.exp(lam)
 
 
+RATE_FLOOR = 1e-9      # errors below this are too close to rounding noise for a rate statement
+RATE_SLACK = 2.0       # genuine order-p formulas show e(2r)/e(r) in [0.76, 1.03] * 2^-p for lam <= 4 (measured); order p-2 gives 4 * 2^-p
+
+
+def rate_ok(e_r, e_2r, order):
+    return e_2r <= RATE_SLACK * 2.0 ** (-order) * e_r + 1e-11
+
+
 def ref_product_formula(Hs, order, t, broken=False):
     """Independent reference product formula (used by the self-test only)."""
     if order == 1:
@@ -196,8 +205,17 @@ def selftest():
         for t in (0.03, 0.1):
             ex = expm(-1j * t * Hm)
             assert specnorm(ref_product_formula(Hs, order, t) - ex) <= taylor_bound(lam * t, order) + 1e-13
-        # a formula with a wrong Suzuki coefficient (only 2nd order) violates the bound -> the bound discriminates
-        assert specnorm(ref_product_formula(Hs, order, 0.1, broken=True) - expm(-0.1j * Hm)) > taylor_bound(lam * 0.1, order) + 1e-8
+        # rate criterion: the genuine formula passes with margin, one with a wrong Suzuki coefficient (order p-2) fails
+        t = 1.0 / lam1
+        ex = expm(-1j * t * Hm)
+        for broken, verdict in ((False, True), (True, False)):
+            e1 = specnorm(ref_product_formula(Hs, order, t, broken=broken) - ex)
+            S = ref_product_formula(Hs, order, t / 2, broken=broken)
+            e2 = specnorm(S @ S - ex)
+            assert e1 > RATE_FLOOR, (order, e1)
+            assert rate_ok(e1, e2, order) == verdict, (order, broken, e1, e2)
+            if not broken:
+                assert e2 <= 1.2 * 2.0 ** (-order) * e1
     assert abs(suzuki_abs_factor(4) - (4 / (4 - 4 ** (1 / 3)) + abs(1 - 4 / (4 - 4 ** (1 / 3))))) < 1e-12
     assert n_stages(4) == 10 and n_stages(6) == 50
 
@@ -238,7 +256,7 @@ def word_body(case):
     var_gates = [g for g in gates if g.is_variational]
     if len(var_gates) != (1 if case["variational"] else 0):
         raise Fail(f"{len(var_gates)} gates flagged variational with variational={case['variational']}", sig="exp_pauliword:variational-flag")
-    U = R.unitary(gates, n)
+    U = R.unitary(circuit_to_recs(gates), n)
     ref = controlled(expm(-1j * c * R.pauli_matrix(sorted(word), n)), cl, n)
     d = float(np.max(np.abs(U - ref)))
     if d > TOL:
@@ -309,6 +327,9 @@ def pauliword_random(ctx):
 TIMES_ANY = st.one_of(st.floats(-3, 3, allow_nan=False),
                       st.sampled_from([0.0, 0, 1, -1, 2, 1e-3, 0.05, -0.05, 0.1, 0.3, 12.5, -40.0, 2 * pi, -2 * pi]))
 TIMES_SMALL = st.one_of(st.floats(-0.4, 0.4, allow_nan=False), st.sampled_from([0.01, -0.02, 0.05, 0.1, -0.1, 0.2, 1, 0.0]))
+TIMES_NZ = st.one_of(st.tuples(st.floats(0.01, 0.4), st.sampled_from([1, -1])).map(lambda x: x[0] * x[1]),
+                     st.sampled_from([0.05, 0.1, -0.2, 0.3, 1, 0.0]))
+COEF_NZ = st.tuples(st.floats(0.2, 2.0), st.sampled_from([1, -1])).map(lambda x: x[0] * x[1])
 COEF_OP = st.one_of(st.floats(-2, 2, allow_nan=False), st.sampled_from([1.0, -1.0, 0.5, 0.25, -0.125, 0.0, 1e-11, 3.0]))
 
 
@@ -331,8 +352,9 @@ def layout(draw, max_n, min_op=1):
 
 
 @st.composite
-def op_terms(draw, opq, family, max_terms):
-    """list of [term, coef]; terms unique."""
+def op_terms(draw, opq, family, max_terms, coefs=None):
+    """list of [term, coef]; terms unique. family 'random' forces (3 times out of 4) a pair of anticommuting words."""
+    coefs = COEF_OP if coefs is None else coefs
     words = []
     if family == "qwc":            # qubit-wise commuting: one fixed letter per qubit
         letter = {q: draw(st.sampled_from("XYZ")) for q in opq}
@@ -352,9 +374,19 @@ def op_terms(draw, opq, family, max_terms):
                            .flatmap(lambda s: st.tuples(*[st.sampled_from("XYZ") for _ in s]).map(lambda ls, s=s: [[q, l] for q, l in zip(s, ls)])),
                            min_size=1, max_size=max_terms, unique_by=lambda w: tuple(map(tuple, w))))
         words = ws
+        if draw(st.integers(0, 3)) > 0:
+            # partner of the first word with one letter changed: differs on exactly one shared qubit -> anticommutes
+            w0 = words[0]
+            k = draw(st.integers(0, len(w0) - 1))
+            partner = [list(x) for x in w0]
+            partner[k][1] = draw(st.sampled_from([l for l in "XYZ" if l != w0[k][1]]))
+            if partner not in words:
+                if len(words) >= max_terms:
+                    words.pop()
+                words.insert(draw(st.integers(1, len(words))), partner)
     if draw(st.booleans()):
         words.insert(draw(st.integers(0, len(words))), [])      # identity term anywhere in the order
-    return [[w, draw(COEF_OP)] for w in words]
+    return [[w, draw(coefs)] for w in words]
 
 
 @st.composite
@@ -387,12 +419,13 @@ def qubit_evolve_cases(draw, families, times, orders=(1, 2), max_n=6, max_terms=
 
 
 def build_qop(op, cplx, ofclass):
+    """Terms are written straight into the operator's term dictionary, so that zero / tiny coefficients and the term
+    order of the case survive (operator arithmetic would drop |coef| < 1e-8)."""
     from tangelo.toolboxes.operators import QubitOperator
     from openfermion.ops import QubitOperator as ofQ
-    cls = ofQ if ofclass else QubitOperator
-    q = cls()
+    q = (ofQ if ofclass else QubitOperator)()
     for t, c in op:
-        q += cls(tup(t), complex(c, 0.0) if cplx else c)
+        q.terms[tup(t)] = complex(c, 0.0) if cplx else c
     return q
 
 
@@ -400,7 +433,7 @@ def pass_control(control):
     return control if control is None or isinstance(control, int) else list(control)
 
 
-def evaluate(case, circuit, phase, terms_t, n_op, order, r, reps, ordered, labels, what, Hmat=None, drop_identity=False):
+def evaluate(case, circuit, phase, terms_t, n_op, order, r, reps, ordered, labels, what, Hmat=None, drop_identity=False, extra_tol=0.0):
     """Common oracle.  terms_t: ordered list [(word, coef*time)] of the full evolution exponent (one `rep`);
     the circuit is expected to implement [S_order(./r)^r]^reps ~ exp(-i reps sum_j terms_t).  Hmat: optional
     independent matrix of sum_j terms_t on n_op qubits."""
@@ -409,7 +442,7 @@ def evaluate(case, circuit, phase, terms_t, n_op, order, r, reps, ordered, label
     n = max([n_op, circuit.width] + [q + 1 for q in cl])
     if n > 8:
         raise Fail(f"circuit width {circuit.width} for an operator on {n_op} qubits", sig=f"{what}:width")
-    U = R.unitary(list(circuit), n) * phase
+    U = R.unitary(circuit_to_recs(circuit), n) * phase
     tdict = {}
     for w, c in terms_t:
         tdict[w] = tdict.get(w, 0.0) + c
@@ -421,14 +454,16 @@ def evaluate(case, circuit, phase, terms_t, n_op, order, r, reps, ordered, label
         H = R.qop_matrix(eff, n)
     else:
         H = np.kron(Hmat, np.eye(2 ** (n - n_op)))
+        c_id = float(np.real(np.trace(Hmat))) / Hmat.shape[0]
         if drop_identity:
             H = H - c_id * np.eye(2 ** n)
     ref = controlled(expm(-1j * reps * H), cl, n)
     err = specnorm(U - ref)
     nz = [(w, c) for w, c in tdict.items() if w and abs(c) > 0]
     commuting = all(O.words_commute(a[0], b[0]) for a, b in itertools.combinations(nz, 2))
-    pieces = len(terms_t) * n_stages(order) * r * reps
-    tol = TOL + 1e-10 * pieces
+    # exponentials with |angle| <= 1e-10 may be skipped by the code: each costs at most 1e-10 in norm
+    droppable = sum(1 for w, c in terms_t if w and abs(c) / r <= 1e-8)
+    tol = TOL + 1e-10 * droppable * n_stages(order) * r * reps + extra_tol
     labels = set(labels)
     labels.add("commuting" if commuting else "noncommuting")
     if commuting:
@@ -459,6 +494,12 @@ def evaluate(case, circuit, phase, terms_t, n_op, order, r, reps, ordered, label
     if bound < 0.05:
         labels.add("bound<0.05")
     return bound < 1, labels
+
+
+def known_identity_q0(case):
+    """input class of the hard-coded target=0 defect: identity term present, >= 2 control qubits, one of them qubit 0."""
+    cl = ctrl_list(case["control"])
+    return any(not t for t, _ in case["op"]) and len(cl) > 1 and 0 in cl
 
 
 def evolve_body(case):
@@ -544,7 +585,7 @@ def evolve_body(case):
             if case["n_steps"] > 1:
                 labels.add("tsu-n_steps>1")
     except ValueError as e:
-        if "duplicate qubits" in str(e) and has_id and len(cl) > 1 and 0 in cl:
+        if "duplicate qubits" in str(e) and known_identity_q0(case):
             raise Fail(f"{api}: identity term with control list {control} containing qubit 0 raises ValueError: {e}",
                        sig="evolve:identity-term+multicontrol-containing-q0") from e
         raise
@@ -559,19 +600,94 @@ def evolve_body(case):
 @part("evolve_commuting", quick=500, thorough=25000)
 def evolve_commuting(ctx):
     mx = 6 if ctx.tier == "quick" else 7
-    ctx.search("evolve_commuting", qubit_evolve_cases(["qwc", "qwc", "pairs"], TIMES_ANY, max_n=mx), evolve_body)
+    ctx.search("evolve_commuting", qubit_evolve_cases(["qwc", "qwc", "pairs"], TIMES_ANY, max_n=mx), evolve_body,
+               exclusions={"evolve:identity-term+multicontrol-containing-q0": known_identity_q0})
 
 
 @part("evolve_bound", quick=400, thorough=20000)
 def evolve_bound(ctx):
     mx = 5 if ctx.tier == "quick" else 6
-    ctx.search("evolve_bound", qubit_evolve_cases(["random"], TIMES_SMALL, max_n=mx, max_terms=5), evolve_body)
+    ctx.search("evolve_bound", qubit_evolve_cases(["random"], TIMES_NZ, max_n=mx, max_terms=5), evolve_body,
+               exclusions={"evolve:identity-term+multicontrol-containing-q0": known_identity_q0})
+
+
+@st.composite
+def high_order_cases(draw):
+    control, opq = draw(layout(4))
+    if isinstance(control, list) and len(control) > 1:
+        control = control[:1]
+    op = draw(op_terms(opq, draw(st.sampled_from(["random", "random", "random", "random", "qwc"])), 4, coefs=COEF_NZ))
+    order = draw(st.sampled_from([4, 6]))
+    return {"api": draw(st.sampled_from(["trot", "gexp"])), "op": op, "control": control, "order": order,
+            "steps": draw(st.integers(1, 2)), "lam": draw(st.floats(0.5, 2.0) if order == 4 else st.floats(2.0, 3.5)),
+            "neg": draw(st.booleans())}
+
+
+def high_order_body(case):
+    """orders 4 and 6 ('convergence'): (i) rigorous Taylor-remainder bound at r and 2r steps, (ii) the error falls by
+    about 2^-p from r to 2r steps (asserted only when the error is well above rounding noise)."""
+    from tangelo.toolboxes.ansatz_generator.ansatz_utils import get_exponentiated_qubit_operator_circuit, trotterize
+    api, order, control, r = case["api"], case["order"], case["control"], case["steps"]
+    cl = ctrl_list(control)
+    qop = build_qop(case["op"], False, False)
+    items = [(w, float(np.real(c))) for w, c in qop.terms.items()]
+    if [w for w, _ in items] != [tup(t) for t, _ in case["op"]]:
+        raise Skip("operator container reordered/merged terms")
+    norm1 = sum(abs(c) for w, c in items if w)
+    if norm1 < 1e-3:
+        raise Skip("operator has no sizeable non-identity term")
+    # time chosen so that lam = (sum of |exponents| of one step) = case["lam"]
+    t = (-1 if case["neg"] else 1) * case["lam"] * r / (suzuki_abs_factor(order) * norm1)
+    n_op = max([q + 1 for w, _ in items for q, _ in w] + [0])
+    n = max([n_op] + [q + 1 for q in cl])
+    tdict = dict(items)
+    ref = controlled(expm(-1j * t * R.qop_matrix(tdict, n)), cl, n)
+    nz = [(w, c) for w, c in items if w and abs(c) > 0]
+    commuting = all(O.words_commute(a[0], b[0]) for a, b in itertools.combinations(nz, 2))
+    droppable = sum(1 for w, c in items if w and abs(c * t) / r <= 1e-8)
+
+    def run(steps):
+        if api == "trot":
+            circ, ph = trotterize(qop, time=t, n_trotter_steps=steps, trotter_order=order, control=pass_control(control), return_phase=True)
+            if circ.width > n:
+                raise Fail(f"circuit width {circ.width} > {n}", sig="high-order:width")
+            return R.unitary(circuit_to_recs(circ), n) * ph
+        circ, ph = get_exponentiated_qubit_operator_circuit(qop, time=t / steps, trotter_order=order, control=pass_control(control),
+                                                            return_phase=True)
+        if circ.width > n:
+            raise Fail(f"circuit width {circ.width} > {n}", sig="high-order:width")
+        return np.linalg.matrix_power(R.unitary(circuit_to_recs(circ), n) * ph, steps)
+
+    errs = {}
+    for steps in (r, 2 * r):
+        errs[steps] = specnorm(run(steps) - ref)
+        slack = 1e-10 * droppable * n_stages(order) * steps
+        lam = suzuki_abs_factor(order) * norm1 * abs(t) / steps
+        if commuting:
+            if errs[steps] > TOL + slack:
+                raise Fail(f"{api}: order-{order} evolution of commuting terms differs from exp(-itH) by {errs[steps]:.3g}",
+                           sig=f"{api}:commuting-exact:order{order}", err=errs[steps])
+        elif errs[steps] > steps * taylor_bound(lam, order) + 1e-11 + slack:
+            raise Fail(f"{api}: order-{order} error {errs[steps]:.3g} with {steps} steps exceeds the Taylor-remainder bound "
+                       f"{steps * taylor_bound(lam, order):.3g}", sig=f"{api}:taylor-bound-order{order}", err=errs[steps])
+    labels = {api, f"order{order}", "commuting" if commuting else "noncommuting", "ctrl" if cl else "noctrl", f"steps={r}"}
+    if commuting:
+        return len(nz) >= 2, labels
+    rate_active = errs[r] >= RATE_FLOOR and droppable == 0
+    if rate_active:
+        labels.add("rate-check-active")
+        if not rate_ok(errs[r], errs[2 * r], order):
+            raise Fail(f"{api}: order-{order} formula does not converge at its order: error {errs[r]:.3g} with {r} steps, "
+                       f"{errs[2 * r]:.3g} with {2 * r} steps (ratio {errs[2 * r] / errs[r]:.3g}, expected about {2.0 ** -order:.3g})",
+                       sig=f"{api}:convergence-rate-order{order}", e_r=errs[r], e_2r=errs[2 * r])
+    else:
+        labels.add("rate-check-inactive(error<1e-9)")
+    return rate_active, labels
 
 
 @part("evolve_high_order", quick=60, thorough=2000)
 def evolve_high_order(ctx):
-    ctx.search("evolve_high_order", qubit_evolve_cases(["random", "random", "qwc"], TIMES_SMALL, orders=(4, 6), max_n=4, max_terms=4,
-                                                        max_steps=2, apis=("gexp", "trot")), evolve_body)
+    ctx.search("evolve_high_order", high_order_cases(), high_order_body)
 
 
 # ------------------------------------------------------------------------------------------------- fermionic inputs
@@ -581,7 +697,7 @@ def fermion_cases(draw, times):
     mapping = draw(st.sampled_from(["jw", "jw", "JW", "bk", "jkmn", "scbk"]))
     m = 4 if mapping == "scbk" else draw(st.sampled_from([2, 4, 4, 6] if mapping.lower() == "jw" else [2, 4]))
     spin_conserving = mapping == "scbk" or draw(st.booleans())
-    kinds = ["num", "num2", "hop", "const"] + (["dbl"] if m >= 4 else [])
+    kinds = ["num", "num2", "hop", "hop", "const"] + (["dbl", "dbl"] if m >= 4 else [])
 
     @st.composite
     def gen(draw):
@@ -650,6 +766,16 @@ def fermion_terms(case):
     return out
 
 
+FERM_DROP = 1.01e-8    # operator arithmetic drops terms with |coefficient| < 1e-8 (openfermion EQ_TOLERANCE)
+FERM_TINY = 1e-6       # fermionic terms below this (per step) may lose some or all of their Pauli images inside the mapping
+
+
+def ferm_no_ladder(case):
+    """input class of the make_up_then_down defect: up_then_down requested and no ladder term survives the time scaling."""
+    r = case["steps"]
+    return bool(case["up_then_down"]) and all((not k) or abs(c * t) / r < FERM_DROP for k, c, t in fermion_terms(case))
+
+
 def fermion_body(case):
     from tangelo.toolboxes.operators import FermionOperator
     from tangelo.toolboxes.ansatz_generator.ansatz_utils import trotterize
@@ -661,9 +787,7 @@ def fermion_body(case):
         raise Skip("duplicate fermionic keys")
     fop = FermionOperator()
     for k, c, _ in fts:
-        fop += FermionOperator(k, c)
-    if list(fop.terms.keys()) != keys:
-        raise Skip("operator container merged terms")
+        fop.terms[k] = c                     # plain container write: keeps order, zero and tiny coefficients
     if case["time_dict"]:
         t_arg = {k: t for k, _, t in fts}
     else:
@@ -675,27 +799,41 @@ def fermion_body(case):
         opts["n_electrons"] = 2
     r, order, control = case["steps"], case["order"], case["control"]
     cl = ctrl_list(control)
-    out = trotterize(fop, time=t_arg, n_trotter_steps=r, trotter_order=order, mapping_options=opts,
-                     control=pass_control(control), return_phase=case["return_phase"])
+    no_ladder = all((not k) or abs(c * t) / r < FERM_DROP for k, c, t in fts)
+    try:
+        out = trotterize(fop, time=t_arg, n_trotter_steps=r, trotter_order=order, mapping_options=opts,
+                         control=pass_control(control), return_phase=case["return_phase"])
+    except ValueError as e:
+        if "max() iterable argument is empty" in str(e) and ferm_no_ladder(case):
+            raise Fail(f"trotterize(fermionic operator, up_then_down=True) raises '{e}' when no ladder term is left after time scaling "
+                       f"(zero time, tiny coefficients or constant-only operator)", sig="trot-ferm:up_then_down-without-ladder-terms") from e
+        raise
     circuit, phase = out if case["return_phase"] else (out, 1.0)
+    # terms the operator arithmetic (scaling, mapping) may drop wholly or partly (|coef| < 1e-8 per step): whether kept or
+    # dropped, each changes the exponent by at most |c t|
+    extra_tol = 2 * sum(abs(c * t) for k, c, t in fts if abs(c * t) / r < FERM_TINY)
     # effective exponent sum_k c_k t_k F_k
     eff = {k: c * t for k, c, t in fts}
     Hmat = None
     n_op = m - 2 if mapping == "scbk" else m
     if mapping.lower() == "jw":
-        ft = {k: v for k, v in eff.items()}
+        ft = dict(eff)
         if utd:
             ft = O.relabel_terms(ft, O.up_then_down_perm(m))
         Hmat = O.fermion_matrix(ft, m)
         if np.max(np.abs(Hmat - Hmat.conj().T)) > 1e-12:
             raise Skip("non-Hermitian exponent")
-    eff_op = FermionOperator()
-    for k, v in eff.items():
-        eff_op += FermionOperator(k, v)
-    q_eff = fermion_to_qubit_mapping(eff_op, mapping, n_spinorbitals=m, n_electrons=2 if mapping == "scbk" else None, up_then_down=utd)
-    if any(abs(np.imag(v)) > 1e-12 for v in q_eff.terms.values()):
-        raise Skip("non-Hermitian exponent")
-    terms_t = [(w, float(np.real(c))) for w, c in q_eff.terms.items()]
+    kept = {k: v for k, v in eff.items() if abs(v) >= FERM_TINY}
+    if no_ladder or not any(k for k in kept):
+        terms_t = [((), float(np.real(sum(v for k, v in eff.items() if not k))))]
+    else:
+        eff_op = FermionOperator()
+        for k, v in kept.items():
+            eff_op += FermionOperator(k, v)
+        q_eff = fermion_to_qubit_mapping(eff_op, mapping, n_spinorbitals=m, n_electrons=2 if mapping == "scbk" else None, up_then_down=utd)
+        if any(abs(np.imag(v)) > 1e-12 for v in q_eff.terms.values()):
+            raise Skip("non-Hermitian exponent")
+        terms_t = [(w, float(np.real(c))) for w, c in q_eff.terms.items()]
     labels = {"ferm", f"map={mapping.lower()}", f"order{order}", "utd" if utd else "alternating",
               "ctrl=" + ("none" if control is None else "int" if isinstance(control, int) else f"list{len(cl)}")}
     if case["time_dict"] and len({t for _, _, t in fts}) > 1:
@@ -708,10 +846,14 @@ def fermion_body(case):
         labels.add("return_phase")
     if Hmat is not None:
         labels.add("independent-fock-matrix")
+    if extra_tol > 0:
+        labels.add("tiny-terms(tolerance widened)")
     drop_identity = (not case["return_phase"]) and not cl
-    return evaluate(case, circuit, phase, terms_t, n_op, order, r, 1, False, labels, "trot-ferm", Hmat=Hmat, drop_identity=drop_identity)
+    return evaluate(case, circuit, phase, terms_t, n_op, order, r, 1, False, labels, "trot-ferm", Hmat=Hmat, drop_identity=drop_identity,
+                    extra_tol=extra_tol)
 
 
 @part("evolve_fermion", quick=240, thorough=10000)
 def evolve_fermion(ctx):
-    ctx.search("evolve_fermion", fermion_cases(TIMES_SMALL), fermion_body)
+    ctx.search("evolve_fermion", fermion_cases(TIMES_NZ), fermion_body,
+               exclusions={"trot-ferm:up_then_down-without-ladder-terms": ferm_no_ladder})
